@@ -410,18 +410,23 @@ DrainOut(h) ==
 ---------------------------------------------------------------------------
 \* inbound packets (bytes the client consumed, framed)
 
-OwedAck(t, id, rc) == [t |-> t, id |-> id, rc |-> rc]
+OwedAck(t, id, rc, ci) == [t |-> t, id |-> id, rc |-> rc, ci |-> ci]
+
+\* every acknowledgement this client sends is five bytes long: below that maximum a packet that demands
+\* one cannot be answered and the connection has to be closed instead (C14)
+NoAckFits(h) == h.ack.have /\ h.ack.maxpkt >= 0 /\ h.ack.maxpkt < 5
 
 InPublish(h0, d) ==
   LET h == Tick(h0, "C04") IN
   IF d.q = 0 THEN [h EXCEPT !.op.msg = d, !.op.hasmsg = TRUE]
+  ELSE IF NoAckFits(h) THEN [h EXCEPT !.op.nofit = TRUE]
   ELSE IF d.q = 1 THEN
-    [h EXCEPT !.owed = Append(@, OwedAck(PUBACK, d.id, IF d.id \in h.sids THEN 145 ELSE 0)),
+    [h EXCEPT !.owed = Append(@, OwedAck(PUBACK, d.id, IF d.id \in h.sids THEN 145 ELSE 0, h.ci)),
               !.op.msg = d, !.op.hasmsg = TRUE]
   ELSE IF d.id \in h.sids THEN
-    [h EXCEPT !.owed = Append(@, OwedAck(PUBREC, d.id, 0))]            \* duplicate: acknowledged only
+    [h EXCEPT !.owed = Append(@, OwedAck(PUBREC, d.id, 0, h.ci))]      \* duplicate: acknowledged only
   ELSE IF Cardinality(h.sids) >= 8 THEN [h EXCEPT !.op.dc = TRUE]      \* broker exceeds our Receive Maximum
-  ELSE [h EXCEPT !.owed = Append(@, OwedAck(PUBREC, d.id, 0)), !.sids = @ \cup {d.id},
+  ELSE [h EXCEPT !.owed = Append(@, OwedAck(PUBREC, d.id, 0, h.ci)), !.sids = @ \cup {d.id},
                  !.op.msg = d, !.op.hasmsg = TRUE]
 
 InAck(h, d) ==
@@ -492,8 +497,9 @@ OnIn(h, pkt) ==
   ELSE IF d.t = CONNACK THEN [h0 EXCEPT !.op.unexp = TRUE]
   ELSE IF d.t = PUBLISH THEN InPublish(h0, d)
   ELSE IF d.t \in {PUBACK, PUBREC, PUBCOMP, SUBACK, UNSUBACK} THEN InAck(h0, d)
+  ELSE IF d.t = PUBREL /\ NoAckFits(h) THEN [h0 EXCEPT !.op.nofit = TRUE]
   ELSE IF d.t = PUBREL THEN
-       [h0 EXCEPT !.owed = Append(@, OwedAck(PUBCOMP, d.id, IF d.id \in h.sids THEN 0 ELSE 146)),
+       [h0 EXCEPT !.owed = Append(@, OwedAck(PUBCOMP, d.id, IF d.id \in h.sids THEN 0 ELSE 146, h.ci)),
                   !.sids = @ \ {d.id}]
   ELSE IF d.t = PINGRESP THEN [h0 EXCEPT !.pingAt = -1, !.pingDoneAt = h.now]
   ELSE IF d.t = DISCONNECT THEN [h0 EXCEPT !.op.disc = TRUE]
@@ -579,12 +585,12 @@ StepConn(h, e) ==
             !.dead = FALSE, !.c10off = FALSE, !.dcconn = FALSE, !.pio = "", !.pingAt = -1, !.pingOut = FALSE, !.overslept = TRUE, !.up = FALSE,
             !.op = [name |-> "conn", l |-> h.l, prog |-> FALSE, nin |-> 0, bad |-> FALSE,
                     dc |-> FALSE, disc |-> FALSE, unexp |-> FALSE, fault |-> FALSE, eof |-> FALSE,
-                    rej |-> -1, hasmsg |-> FALSE, deadcall |-> FALSE, healthy |-> e.healthy]]
+                    rej |-> -1, hasmsg |-> FALSE, deadcall |-> FALSE, healthy |-> e.healthy, nofit |-> FALSE]]
 
 BaseOp(h, e) ==
   [name |-> e.e, l |-> h.l, e |-> e, prog |-> FALSE, nin |-> 0, bad |-> FALSE, dc |-> FALSE,
    disc |-> FALSE, unexp |-> FALSE, fault |-> FALSE, eof |-> FALSE, rej |-> -1, hasmsg |-> FALSE,
-   msg |-> << >>, deadcall |-> h.dead, io0 |-> h.lastio, q |-> -1, q0sent |-> FALSE, req |-> 0]
+   msg |-> << >>, deadcall |-> h.dead, io0 |-> h.lastio, q |-> -1, q0sent |-> FALSE, req |-> 0, nofit |-> FALSE]
 
 StepCall(h, e) ==
   LET o == BaseOp(h, e) IN
@@ -769,14 +775,20 @@ RetDrive(h, e) ==
             ELSE h6
       h8 == IF o.hasmsg /\ r.k = "ok" /\ r.hasmsg /\ SameMsg(r.msg, o.msg) THEN C20Check(h7, o.msg, r.msg.probe) ELSE h7
       \* C14: a mandatory acknowledgement that does not fit the broker's Maximum Packet Size ends the
-      \* connection (every acknowledgement of this client is five bytes long).  Known finding D14.
+      \* connection (every acknowledgement of this client is five bytes long).  Known finding D14: the
+      \* acknowledgement became owed on an earlier connection and was carried over.
       h9 == IF r.k = "err" /\ r.v = "PacketTooLarge" /\ h.aw < Len(h.owed) /\ h.ack.have
                /\ h.ack.maxpkt >= 0 /\ h.ack.maxpkt < 5 /\ ~h.dcconn
             THEN CheckKF(Tick(h8, "C14"), ~e.obs.live, "C14",
                          "an owed acknowledgement does not fit the Maximum Packet Size and the connection was not closed",
-                         "D14", TRUE)
+                         "D14", h.owed[h.aw + 1].ci < h.ci)
             ELSE h8
-  IN h9
+      \* ... and one that became owed on this very connection closes it
+      h10 == IF o.nofit /\ ~o.bad /\ ~o.dc /\ ~h.dcconn
+             THEN Check(Tick(h9, "C14"), r.k = "err" /\ r.v = "PacketTooLarge" /\ ~e.obs.live, "C14",
+                        "a packet that demands an acknowledgement longer than the Maximum Packet Size did not close the connection")
+             ELSE h9
+  IN h10
 
 RetConn(h, e) ==
   LET o == h.op  r == e.r  a == h.ack
@@ -817,6 +829,7 @@ DeathTrigger(h, e) ==
   \/ (r.k = "err" /\ r.v \in {"Transport", "Disconnected"})
   \/ (r.k = "err" /\ r.v = "InvalidPacket" /\ h.op.name \in {"poll", "recv", "drive"})
   \/ (h.op.name = "disconnect" /\ r.k = "ok")
+  \/ (r.k = "err" /\ r.v = "PacketTooLarge" /\ h.op.name \in {"poll", "recv", "drive"} /\ h.op.nofit /\ ~e.obs.live)
 
 StepRet(h, e) ==
   LET o == h.op
